@@ -1,0 +1,59 @@
+//go:build verif
+
+package generator
+
+// Contracts for package generator (comment-only; checked by /verif/engine).
+
+//@ pred GenOK(g *generator) bool = g != nil && g.lookup != nil && g.extend != nil && g.conf != nil
+
+//@ func typeMismatch
+//@   props C03 C11
+//@   requires source != nil && target != nil
+//@   ensures result != nil
+//@   ensures strings.Contains(result.Cause, "TypeMismatch: Cannot convert ")
+//@   ensures source.Pointer && !target.Pointer ==> strings.Contains(result.Cause, "useZeroValueOnPointerInconsistency")
+
+// order in which a rule may be reached: each rule only when no rule before it matched
+//@ pred RuleOrderOK(rule builder.Builder, ctx *builder.MethodContext, s *xtype.Type, t *xtype.Type) bool =
+//@        (dynIs[*builder.SkipCopy](rule) ==> builder.MatchesSkipCopy(ctx, s, t))
+//@     && (dynIs[*builder.BasicTargetPointerRule](rule) ==> builder.MatchesBasicTargetPointer(s, t) && !builder.MatchesSkipCopy(ctx, s, t))
+//@     && (dynIs[*builder.Pointer](rule) ==> builder.MatchesPointer(s, t) && !builder.MatchesSkipCopy(ctx, s, t) && !builder.MatchesBasicTargetPointer(s, t))
+//@     && (dynIs[*builder.SourcePointer](rule) ==> builder.MatchesSourcePointer(ctx, s, t) && !builder.MatchesSkipCopy(ctx, s, t))
+//@     && (dynIs[*builder.TargetPointer](rule) ==> builder.MatchesTargetPointer(s, t) && !builder.MatchesSkipCopy(ctx, s, t) && !builder.MatchesBasicTargetPointer(s, t))
+//@     && (dynIs[*builder.Basic](rule) ==> builder.MatchesBasic(s, t) && !builder.MatchesSkipCopy(ctx, s, t))
+//@     && (dynIs[*builder.Struct](rule) ==> builder.MatchesStruct(s, t) && !builder.MatchesSkipCopy(ctx, s, t))
+//@     && (dynIs[*builder.List](rule) ==> builder.MatchesList(s, t) && !builder.MatchesSkipCopy(ctx, s, t))
+//@     && (dynIs[*builder.Map](rule) ==> builder.MatchesMap(s, t) && !builder.MatchesSkipCopy(ctx, s, t))
+//@     && (dynIs[*builder.UseUnderlyingTypeMethods](rule) ==> builder.MayMatchUnderlying(ctx, s, t))
+//@     && (dynIs[*builder.Enum](rule) ==> builder.MayMatchEnum(ctx, s, t) && !builder.MatchesSkipCopy(ctx, s, t))
+
+//@ func generator.buildNoLookup
+//@   props C03 C11 C04
+//@   requires GenOK(g) && builder.CtxOK(ctx) && source != nil && target != nil
+//@   ensures old(builder.NoRule(ctx, source, target)) ==> err != nil
+//@   ensures old(builder.NoRule(ctx, source, target) && source.Pointer && !target.Pointer && !(source.Struct && target.Struct))
+//@           ==> strings.Contains(err.Cause, "useZeroValueOnPointerInconsistency")
+//@   at call rule.Build#1 assert RuleOrderOK(rule, ctx, source, target)
+//@   at call typeMismatch#1 assert !builder.AnyPureRule(ctx, source, target)
+
+//@ func generator.assignNoLookup
+//@   props C03 C11 C04
+//@   requires GenOK(g) && builder.CtxOK(ctx) && source != nil && target != nil
+//@   ensures old(builder.NoRule(ctx, source, target)) ==> err != nil
+//@   at call rule.Assign#1 assert RuleOrderOK(rule, ctx, source, target)
+//@   at call typeMismatch#1 assert !builder.AnyPureRule(ctx, source, target)
+
+//@ func generator.getOverlappingStructDefinition
+//@   props C05
+//@   requires GenOK(g) && builder.CtxOK(ctx) && source != nil && target != nil
+//@   assigns nothing
+//@   ensures !(source.Struct && target.Struct) ==> result == nil
+
+// ---- C09 ----
+//@ func validateMethods
+//@   props C09 C03
+//@   maprange 1 unordered-result signatures
+
+//@ func fileManager.renderFiles
+//@   props C09 C15
+//@   maprange 1 unordered-result names
